@@ -355,7 +355,7 @@ func pullProcessedOnlyAfterWrite(c *Ctx, r *Report, rule string) {
 		}
 		var cbs []ssa.Instruction
 		EachInstr(pr, false, func(in ssa.Instruction) {
-			if ci, ok := in.(ssa.CallInstruction); ok && fieldOfDynamicCall(ci) == "sgr2PullProcessedSeqCallback" {
+			if ci, ok := in.(ssa.CallInstruction); ok && c.invokesFieldCallback(ci, "sgr2PullProcessedSeqCallback", 0) {
 				cbs = append(cbs, in)
 			}
 		})
@@ -431,7 +431,7 @@ func c06R3For(c *Ctx, r *Report, rule string) {
 	for _, fn := range append([]*ssa.Function{sr}, c15Lits(sr)...) {
 		EachInstr(fn, false, func(in ssa.Instruction) {
 			ci, ok := in.(ssa.CallInstruction)
-			if !ok || fieldOfDynamicCall(ci) != "sgr2PushProcessedSeqCallback" {
+			if !ok || !c.invokesFieldCallback(ci, "sgr2PushProcessedSeqCallback", 0) {
 				return
 			}
 			n++
